@@ -134,7 +134,10 @@ def gen_market(rng, n_assets, day0, n_bdays, adjust=True, faults=(), styles=None
             ap.append("late_start")
         assets[sym] = {"rows": rows}
         applied[sym] = ap
-    return {"adjust": adjust, "assets": assets, "applied": applied}
+    return {"adjust": adjust, "assets": assets, "applied": applied, "int_cells": rng.random() < 0.3}
+
+
+INT_CELLS = [False]
 
 
 def fmt(x):
@@ -142,6 +145,8 @@ def fmt(x):
         return ""
     if isinstance(x, int):
         return str(x)
+    if INT_CELLS[0] and float(x) == int(x):
+        return str(int(x))          # "100" rather than "100.0": pandas then infers an integer column
     return repr(float(x))
 
 
@@ -159,6 +164,7 @@ def csv_text(rows):
 
 def write_market(market, dirpath, only=None):
     os.makedirs(dirpath, exist_ok=True)
+    INT_CELLS[0] = bool(market.get("int_cells"))
     for sym, a in sorted(market["assets"].items()):
         if only is not None and sym not in only:
             continue
